@@ -9,6 +9,7 @@ open SamVerif.Heap SamVerif.PStr
 #print axioms perm_forever
 #print axioms marked_survives
 #print axioms live_without_sweep
+#print axioms marked_needs_two_sweeps
 #print axioms modref_parts_never_reclaimed
 #print axioms allocString_reads
 #print axioms allocString_valid
